@@ -18,14 +18,15 @@ def run(out, tier, seed):
         k = 0
         slow_seen = 0
         for p in vlib.read_ndjson(bpath):
-            # inputs that already match the open finding C07-slice-cast-from-huge-negative-start cost one watchdog period each:
-            # only a sample is executed (enough to see whether the finding still reproduces), DESIGN.md 6
+            # inputs that match the open finding C07-huge-span-materialised cost one watchdog period each: only a sample is
+            # executed (enough to see whether the finding still reproduces), DESIGN.md 6
             t = p["tag"]
-            if t.get("k") == "slice" and t.get("lo") == ["--", "2147483647"] and t.get("f", [""])[:4] == ["~#", "(", "#", "\"a\""]:
-                is_sample = p["toks"][:7] == ["(", "(", "1", "2", "3", ")", "<~"] and p["toks"][10:13] == ["..", "1", ")"]
-                if not is_sample and not (tier == "thorough" and slow_seen < 2):
+            if t.get("k") == "slice" and (t.get("lo") == ["--", "2147483647"] or t.get("hi") == ["2147483647"]) and t.get("f", [""])[0] == "~#":
+                if p["toks"][:7] != ["(", "(", "1", "2", "3", ")", "<~"]:
                     continue
-                slow_seen += 0 if is_sample else 1
+                slow_seen += 1
+                if slow_seen > (2 if tier == "quick" else 6):
+                    continue
             c = {"src": " ".join(p["toks"]), "max_steps": 400, "tag": p["tag"]}
             if k % 2 == 1:
                 c["host"] = host          # half of the boundary programs run with callbacks installed
